@@ -423,9 +423,11 @@ class ImageBatch(DataTensor):
     def narrow(self: TImageBatch, dim: int, start: int, length: int) -> TImageBatch:
         r"""Narrow image batch along specified tensor dimension."""
         data = self.tensor().narrow(dim, start, length)
-        grid = self.grid()
-        if dim > 1:
-            grid = grid.narrow(self.ndim - dim - 1, start, length)
+        grid = self._grid
+        if dim == 0:
+            grid = grid[start : start + length]
+        elif dim > 1:
+            grid = tuple(g.narrow(self.ndim - dim - 1, start, length) for g in grid)
         return self._make_instance(data, grid)
 
     def resize(
